@@ -800,7 +800,7 @@ func init() {
 	core.Register(&core.Check{
 		Spec: core.Spec{
 			Prop:        "C14",
-			Rule:        "End states of random multi-node scenarios (several tips, forged branches, no trusted sealers) serve as peers. (1) A fresh node runs the real StreamDAG+LoadDag: it must report loaded, hold the peer's vertices field by field with the same graph edges, index and genesis wallet, the same reference balance per tip and address (and identical CalculateBalance answers when single-tipped), then 12-30 identical gossip deliveries (valid, overdraft, replay, tampered, orphan; tips and stale parents) must be accepted/parked/rejected identically and leave equal ledgers. (2) The recorded stream is loaded in PRNG-permuted orders. (3) Each single corruption out of {duplicate vertex, two vertices with one transaction, unknown parent, second self-sealed vertex on a tip, a vertex re-issued by its own sealer, emptied transaction, missing parent vertex} (re-sealed with the right key so that only that defect is present) must leave the node not loaded. (4) Streams with tampered authenticated content: a node that reports loaded must hold only self-authenticating vertices. Batch 0 first runs the fixed witness of the known finding (sync from a truncated peer). Non-trivial = every sync/corruption; distinct by (kind, size bucket, tips bucket). Every fifth transaction of the source ledgers is dated 8-400 days in the past. Added corruptions: a second root (validly signed vertex with zero parent hashes or a zero left parent; also self-sealed), the same transaction sealed by two nodes (before or after the original in stream order). One batch syncs a ledger of about 200 vertices over a lossless, order preserving transport that stalls once for 2.5-3.5 s after 5-20 vertices: the result must be the peer's ledger. The follow-up gossip starts with vertices that seal again the transactions of tentative tips the peer had dropped before it served the DAG (fixed scenario plus whatever the random sources dropped). After every sync the follow-up gossip includes a vertex on the peer's oldest tip; one fixed scenario syncs from a chain of 70-130 vertices with a late side tip near its start. Real transport: a real gRPC peer on an in-memory listener serves the recorded stream (clean, and with each malformation) and a fresh node syncs through the client side of the gossip service.",
+			Rule:        "End states of random multi-node scenarios (several tips, forged branches, no trusted sealers) serve as peers. (1) A fresh node runs the real StreamDAG+LoadDag: it must report loaded, hold the peer's vertices field by field with the same graph edges, index and genesis wallet, the same reference balance per tip and address (and identical CalculateBalance answers when single-tipped), then 12-30 identical gossip deliveries (valid, overdraft, replay, tampered, orphan; tips and stale parents) must be accepted/parked/rejected identically and leave equal ledgers. (2) The recorded stream is loaded in PRNG-permuted orders. (3) Each single corruption out of {duplicate vertex, two vertices with one transaction, unknown parent, second self-sealed vertex on a tip, a vertex re-issued by its own sealer, emptied transaction, missing parent vertex} (re-sealed with the right key so that only that defect is present) must leave the node not loaded. (4) Streams with tampered authenticated content: a node that reports loaded must hold only self-authenticating vertices. Batch 0 first runs the fixed witness of the known finding (sync from a truncated peer). Non-trivial = every sync/corruption; distinct by (kind, size bucket, tips bucket). Every fifth transaction of the source ledgers is dated 8-400 days in the past. Added corruptions: a second root (validly signed vertex with zero parent hashes or a zero left parent; also self-sealed), the same transaction sealed by two nodes (before or after the original in stream order). One batch syncs a ledger of about 200 vertices over a lossless, order preserving transport that stalls once for 2.5-3.5 s after 5-20 vertices: the result must be the peer's ledger. The follow-up gossip starts with vertices that seal again the transactions of tentative tips the peer had dropped before it served the DAG (fixed scenario plus whatever the random sources dropped). After every sync the follow-up gossip includes a vertex on the peer's oldest tip; one fixed scenario syncs from a chain of 70-130 vertices with a late side tip near its start. Real transport: a real gRPC peer on an in-memory listener serves the recorded stream (clean, and with each malformation) and a fresh node syncs through the client side of the gossip service. The peer is a whole node serving through its own gossip service; a fresh node syncs after every way the peer's ledger changes.",
 			Assumptions: []string{ledgerAssume, "peers of this check have empty trusted stores (the trusted store is local configuration and is not part of the stream)"},
 			MinEvals:    100, MinNontriv: 8,
 		},
